@@ -77,3 +77,76 @@ def _(c):
     c.ensures('self.next_queue_time == old(self.next_queue_time) + self.dt', label='clock')
     c.ensures('wf_queue(self)', label='wf')
     c.modifies('self.queue', 'self.next_queue_time', 'self.start_index')
+
+
+from bsvc.contracts import field_hint
+from bsvc.terms import REAL as _REAL
+field_hint('ArrayDelayQueue.queue', ndim=2, elem=_REAL)
+
+
+@fuc('simulator', Q + '.__init__', props=['C20', 'C10', 'C07'])
+def _(c):
+    c.array('queue', ndim=2, elem='Real')
+    c.requires('dt > 0 and queue.shape[1] >= 1')
+    c.ensures('wf_queue(self)', label='wf')
+    c.ensures('same_array(self.queue, queue)', label='wraps-the-array')
+    c.ensures('self.next_queue_time == current_time + dt and self.dt == dt and self.start_index == 0', label='clock')
+    c.opt(verify_only=True)      # call sites execute the constructor body itself
+
+
+@fuc('simulator', Q + '.setup_queue', props=['C20', 'C10', 'C07'])
+def _(c):
+    c.requires('dt > 0 and queue_length >= 1')
+    c.ensures('wf_queue(result)', label='wf')
+    c.ensures('result.num_reactions == num_reactions and result.num_cols == queue_length and result.dt == dt', label='shape')
+    c.ensures('forall(lambda r, k: implies(in_view(result, r, k), pend(result, r, k) == 0.0))', label='empty')
+    c.ensures('result.next_queue_time == 0.0 + dt', label='clock')
+
+
+@fuc('simulator', Q + '.copy', props=['C20', 'C10', 'C19'])
+def _(c):
+    _q(c)
+    c.requires('wf_queue(self)')
+    c.ensures('wf_queue(result)', label='wf')
+    c.ensures('forall(lambda r, k: implies(in_view(self, r, k), pend(result, r, k) == pend(self, r, k)))', label='same-view')
+    c.ensures('result.next_queue_time == self.next_queue_time and result.dt == self.dt and '
+              'result.num_cols == self.num_cols and result.num_reactions == self.num_reactions', label='same-clock')
+    c.ensures('not same_array(result.queue, self.queue)', label='fresh-array')
+    c.modifies()
+    c.opt(result_class='ArrayDelayQueue')
+
+
+@fuc('simulator', Q + '.clear_copy', props=['C20', 'C10', 'C19'])
+def _(c):
+    _q(c)
+    c.requires('wf_queue(self)')
+    c.ensures('wf_queue(result)', label='wf')
+    c.ensures('forall(lambda r, k: implies(in_view(self, r, k), pend(result, r, k) == 0.0))', label='empty-view')
+    c.ensures('result.next_queue_time == self.next_queue_time and result.dt == self.dt and '
+              'result.num_cols == self.num_cols and result.num_reactions == self.num_reactions and '
+              'result.start_index == self.start_index', label='same-clock')
+    c.ensures('not same_array(result.queue, self.queue)', label='fresh-array')
+    c.modifies()
+    c.opt(result_class='ArrayDelayQueue')
+
+
+@fuc('simulator', Q + '.binomial_partition', props=['C20', 'C19'])
+def _(c):
+    _q(c)
+    c.requires('wf_queue(self)')
+    c.requires('forall(lambda r, m: implies(0 <= r and r < self.num_reactions and 0 <= m and m < self.num_cols, '
+               'select(self.queue, r, m) >= 0))', label='entries-nonneg')
+    INV = ('forall(lambda r, m: implies(0 <= r and r < num_reactions and 0 <= m and m < time_points and '
+           '(m < time_index or (m == time_index and r < %s)), '
+           'select(q1.queue, r, m) + select(q2.queue, r, m) == select(self.queue, r, m) and select(q1.queue, r, m) >= 0))')
+    c.loop(0).invariant(INV % '0').also_modifies('kappa', 'q1.queue', 'q2.queue')
+    c.loop(1).invariant(INV % 'reaction_index').also_modifies('kappa')
+    c.ensures('forall(lambda r, k: implies(in_view(self, r, k), '
+              'pend(result[0], r, k) + pend(result[1], r, k) == pend(self, r, k) and pend(result[0], r, k) >= 0))',
+              label='split-conserves')
+    c.ensures('wf_queue(result[0]) and wf_queue(result[1])', label='wf')
+    c.ensures('result[0].next_queue_time == self.next_queue_time and result[1].next_queue_time == self.next_queue_time '
+              'and result[0].start_index == self.start_index and result[1].start_index == self.start_index', label='same-clock')
+    c.ensures('not same_array(result[0].queue, self.queue) and not same_array(result[1].queue, self.queue) '
+              'and not same_array(result[0].queue, result[1].queue)', label='fresh-arrays')
+    c.modifies('kappa')
